@@ -169,9 +169,18 @@ func scenario(rw bool, used bool, prog [][]acq, bound, raceBound int) schk.Scena
 // crowded: like scenario, but `crowd` further keys (and key x) have been used before, so that
 // key y's first use happens in a map that already holds crowd+1 keys (cache-size thresholds).
 func crowded(rw bool, used bool, crowd int, prog [][]acq, bound, raceBound int) schk.Scenario {
+	return wornCrowded(rw, used, crowd, 0, prog, bound, raceBound)
+}
+
+// wornCrowded: in addition key x has been acquired and released `worn` times before the threads start
+// (a per-key counter - tickets, holders, generations - narrower than the number of uses).
+func wornCrowded(rw bool, used bool, crowd, worn int, prog [][]acq, bound, raceBound int) schk.Scenario {
 	name := map[bool]string{false: "KeyedMutex", true: "KeyedRWMutex"}[rw] + map[bool]string{false: "/fresh|", true: "/used|"}[used]
 	if crowd > 0 {
 		name = fmt.Sprintf("%s/%d-other-keys|", name[:len(name)-1], crowd)
+	}
+	if worn > 0 {
+		name = fmt.Sprintf("%s/key-x-used-%d-times|", name[:len(name)-1], worn)
 	}
 	uses := [3]int{}
 	for i, p := range prog {
@@ -201,6 +210,15 @@ func crowded(rw bool, used bool, crowd int, prog [][]acq, bound, raceBound int) 
 				for k := 0; k < 2; k++ {
 					r.km.LockKey(k)
 					r.km.UnlockKey(k)
+				}
+			}
+			for i := 0; i < worn; i++ {
+				if rw && i%3 == 1 {
+					r.rw.RLockKey(0)
+					r.rw.RUnlockKey(0)
+				} else {
+					r.km.LockKey(0)
+					r.km.UnlockKey(0)
 				}
 			}
 			if crowd > 0 {
@@ -694,6 +712,20 @@ func main() {
 			scs = append(scs, crowded(rw, false, crowd, [][]acq{{{"L", 0}}, {{"L", 0}}, {{"L", 1}, {"TL", 0}}}, ev.Pick(r, 1, 2), -2))
 			if rw {
 				scs = append(scs, crowded(rw, false, crowd, [][]acq{{{"RL", 0}}, {{"L", 1}, {"TRL", 0}, {"TL", 0}}}, ev.Pick(r, 2, 3), -2))
+			}
+		}
+		// a key that has been used 2^8 / 2^16 times (and one less, one more) before two threads contend for it
+		for _, worn := range []int{255, 256, 65535, 65536, 65537} {
+			pps := [][][]acq{{{{"L", 0}}, {{"L", 0}}}, {{{"L", 0}}, {{"TL", 0}}}, {{{"L", 0}}, {{"L", 0}}, {{"L", 0}}}}
+			if rw {
+				pps = append(pps, [][]acq{{{"RL", 0}}, {{"L", 0}}}, [][]acq{{{"RL", 0}}, {{"RL", 0}}, {{"L", 0}}}, [][]acq{{{"L", 0}}, {{"TRL", 0}}})
+			}
+			for _, pp := range pps {
+				sc := wornCrowded(rw, false, 0, worn, pp, 2, -2)
+				if worn > 1000 {
+					sc.Schedules = 60 // a family member: the set-up alone is 10^5 calls per execution
+				}
+				scs = append(scs, sc)
 			}
 		}
 		for _, used := range []bool{false, true} {
